@@ -514,7 +514,7 @@ def main(tier):
         c = cases[ci]
         f0 = c['file']
         small, case_out = f0, sub_case(c)     # the full case unless a smaller one reproduces
-        if name != 'unknown-name':
+        if name not in ('unknown-name', 'shadow'):      # 'shadow' compares two fixed twin files: reported unshrunk
             txs = c['txns'] if name == 'sequence' else [c['txns'][ti]]      # a sequence failure needs its predecessors
             still = still_fails_factory(c, txs, name, run.seed)
             if still(f0):
@@ -546,7 +546,7 @@ def main(tier):
     # model vs implementation in Coq
     n_rows, disc, bad = 0, {}, None
     if not tfails and res['ok']:
-        bad, n_rows, disc, err = model_check('C01', cases, base)
+        bad, n_rows, disc, err = model_check('C01', cases, base, max_rows=1800 if tier == 'quick' else None)
         if bad is None:
             broken.append({'kind': 'broken-correspondence', 'obligation': 'model_vs_impl(Engine.Model, MerchantEngine.match/normalize_merchant)',
                            'detail': 'cases.v did not evaluate: ' + err})
